@@ -32,7 +32,7 @@ def parseOp (t : String) : Option Op :=
   | ["let", d, v] => do let d ← parseDst d; let v ← parseVal v; pure (Op.letv d v)
   | ["dim", n, ds] => do let n ← ofHex n; let ds ← parseNats ds; pure (Op.dim n ds)
   | ["swap", a, b] => do let a ← parseDst a; let b ← parseDst b; pure (Op.swap a b)
-  | ["erase", n] => (ofHex n).map Op.erase
+  | ["erase", ns] => (allSome ((ns.splitOn ",").map ofHex)).map Op.erase
   | _ => none
 
 /-- `n` PEEKs from `p` -/
